@@ -243,7 +243,8 @@ class Exec:
                 return None
             selfn, method = m.group(1), m.group(3)
             cands = [f for f in self.prog.by_short.get(method, []) if f.nparams == nargs and "{closure" not in f.name
-                     and "<impl at" in f.name and 1 in f.param_types and base_type_name(f.param_types[1]) == selfn]
+                     and "<impl at" in f.name and ((1 in f.param_types and base_type_name(f.param_types[1]) == selfn) or
+                                                   (nargs == 0 and base_type_name(f.ret) == selfn))]
             if len(cands) > 1:
                 raw_self = strip_generics(split_top_as(path[1:path.index(">::")] if ">::" in path else path[1:])[0]).replace("&", "").strip()
                 mods = [x for x in raw_self.split("::")[:-1] if x]
@@ -251,6 +252,14 @@ class Exec:
                     c2 = [f for f in cands if f.name.startswith(mods[-1] + "::") or ("::" + mods[-1] + "::") in f.name]
                     if c2:
                         cands = c2
+            if len(cands) > 1:
+                parts = split_top_as(path[1:path.index(">::")] if ">::" in path else path[1:])
+                if len(parts) == 2:
+                    tmods = [x for x in strip_generics(parts[1]).split("::")[:-1] if x]
+                    if tmods:
+                        c2 = [f for f in cands if f.name.startswith(tmods[-1] + "::") or ("::" + tmods[-1] + "::") in f.name]
+                        if c2:
+                            cands = c2
             if len(cands) == 1:
                 return cands[0]
             if len(cands) > 1:
@@ -823,6 +832,9 @@ class Exec:
         f = self.resolve(callee, len(args))
         if f is not None:
             return self.call_fn(f, args, depth + 1)
+        if re.match(r"^<[A-Z][A-Z_0-9]+ as Deref>::deref$", name):
+            self.used_summaries.add("<lazy_static metric as Deref>::deref")
+            return Opaque("metric")         # lazy_static prometheus metrics: side effects outside every property
         raise Unsupported(f"no summary and no body for callee `{name}` ({callee[:120]})")
 
 
